@@ -118,6 +118,40 @@ def w_descriptor_add(b, n, pause=None):
         _pause(pause)
 
 
+# ---- writes at depth >= 2 through the transaction's own objects (values below a first-level member of the state)
+
+def w_metric_nested(b, n, pause=None):
+    from sdc11073.xml_types import pm_types
+    V = pm_types.MeasurementValidity
+    with b.mdib.metric_state_transaction() as tr:
+        st = tr.get_state(METRIC)
+        if st.MetricValue is None:
+            st.mk_metric_value()
+        st.MetricValue.MetricQuality.Validity = [V.VALID, V.QUESTIONABLE, V.INVALID, V.CALIBRATION_ONGOING][n % 4]
+        st.MetricValue.Annotation.append(pm_types.Annotation(pm_types.CodedValue(f'{n}')))
+        del st.MetricValue.Annotation[:-2]
+        _pause(pause)
+
+
+def w_context_nested(b, n, pause=None):
+    """list inside CoreData of an existing patient context state"""
+    with b.mdib.context_state_transaction() as tr:
+        st = tr.get_context_state(b.patient_handle)
+        st.CoreData.Middlename.append(f'middle{n}')
+        del st.CoreData.Middlename[:-2]
+        _pause(pause)
+
+
+# ---- a transaction followed by a COMPLETE second request in the same thread: injected at a yield point of request A it is
+#      the overlap of two requests INSIDE the handler (B passes its critical section while A is between lock and response)
+
+def _then_request(tx, reader):
+    def w(b, n, pause=None):
+        tx(b, n)
+        READERS[reader](b)
+    return w
+
+
 # ---- writers that use the ENTITY work flow (entities.by_handle -> edit entity.states -> write_entity)
 
 def w_entity_admit(b, n, pause=None):
@@ -220,17 +254,24 @@ WRITERS = {'toggleTx': w_toggle, 'metricTx': w_metric, 'contextNewTx': w_context
            'descriptorTx': w_descriptor, 'descriptorAddTx': w_descriptor_add,
            'entityAdmitTx': w_entity_admit, 'entityEditTx': w_entity_edit, 'setLocationTx': w_set_location,
            'setContextStateTx': w_set_context_state, 'contextDeleteTx': w_context_delete}
+WRITERS.update({'metricNestedTx': w_metric_nested, 'contextNestedTx': w_context_nested})
+COMPOUND = {'commitThenGetMdState': _then_request(w_metric, 'getMdState_handles'),
+            'commitThenGetMdStateAll': _then_request(w_metric_nested, 'getMdState_all'),
+            'commitThenGetContextStates': _then_request(w_context_update, 'getContextStates_all'),
+            'commitThenGetMdDescription': _then_request(w_descriptor, 'getMdDescription_handles'),
+            'commitThenGetMdib': _then_request(w_descriptor, 'getMdib')}
 PHASES = {'toggleTx': 3, 'contextDeleteTx': 2}   # cycling writers: every phase is traced by the translator
 NOT_GENERATED = ('setLocationTx',)
 ENTITY_WRITERS = ('entityAdmitTx', 'entityEditTx', 'setLocationTx', 'setContextStateTx')
 # writers that can be held OPEN (paused inside the transaction, holding tr_lock + mdib_lock) while the request arrives
 OPENABLE = ('metricTx', 'contextNewTx', 'contextUpdateTx', 'descriptorTx', 'descriptorAddTx', 'toggleTx', 'entityAdmitTx',
-            'entityEditTx', 'contextDeleteTx')
+            'entityEditTx', 'contextDeleteTx', 'metricNestedTx', 'contextNestedTx')
 
 
 def new_bench():
     bench = lt.Bench(lt.MDIB_TWO, role_providers=False)   # no background transactions: every commit is scheduled by the harness
     add_extensions(bench)
+    bench.patient_handle = sorted(st.Handle for st in bench.mdib.context_states.objects if st.DescriptorHandle == CTX_DESCR)[0]
     tracer = lt.install_tracing(bench.mdib)
     return bench, tracer
 
@@ -280,7 +321,14 @@ def new_state():
 
 
 def trace_single(bench, tracer, fn):
-    """single-threaded run of `fn` -> normalised action list"""
+    """single-threaded run of `fn` -> normalised action list.
+
+    In-place writes to published state objects that no `__setattr__` of the container sees (values two or more levels below
+    the state, list operations) are found by their effect: every state object that was in a table before the run is
+    serialised before and after; a difference is an in-place mutation and is put into the program as `mutate`."""
+    pm_state = bench.mdib.data_model.pm_names.State
+    held = [(st, canon(st.mk_state_node(pm_state, bench.mdib.nsmapper)))
+            for st in list(bench.mdib.states.objects) + list(bench.mdib.context_states.objects)]
     tracer.events.clear()
     tracer.on_event = None
     tracer.enabled = True
@@ -288,7 +336,11 @@ def trace_single(bench, tracer, fn):
         fn()
     finally:
         tracer.enabled = False
-    return lt.to_actions(tracer.events)
+    acts = lt.to_actions(tracer.events)
+    if not any(a.startswith('mutate') for a in acts) and any(canon(st.mk_state_node(pm_state, bench.mdib.nsmapper)) != before for st, before in held):
+        pos = next((i for i, a in enumerate(acts) if a.startswith(('wrC', 'rel 0'))), len(acts))
+        acts.insert(pos, 'mutate 99')
+    return acts
 
 
 def lean_act(a):
@@ -367,7 +419,8 @@ def descr_map(md_description):
     res = {}
 
     def is_descr(e):
-        return e.get('Handle') is not None and e.get('DescriptorVersion') is not None or e.tag.endswith('}Mds')
+        # inside MdDescription only descriptors carry a Handle (DescriptorVersion is omitted when it is 0)
+        return e.get('Handle') is not None
 
     def walk(e, parent):
         for ch in e:
@@ -473,8 +526,9 @@ class Forced:
 
     TIMEOUT = 20.0
 
-    def __init__(self, bench, tracer, reader, writers, points, opened=None):
+    def __init__(self, bench, tracer, reader, writers, points, opened=None, reader_kind=''):
         self.bench, self.tracer, self.reader, self.writers, self.points = bench, tracer, reader, writers, points
+        self.reader_kind = reader_kind
         self.opened = opened or [False] * len(writers)
         self.reader_tid = None
         self.n_reader_events = 0
@@ -620,10 +674,9 @@ class Forced:
         return self
 
     def last_response(self):
-        for cl in (self.bench.get_client, self.bench.context_client):
-            if cl.soap_client.last_response is not None:
-                return cl.soap_client.last_response
-        return None
+        # the reader's own client: a compound writer may have answered another request through the other client meanwhile
+        cl = self.bench.context_client if self.reader_kind.startswith('getContextStates') else self.bench.get_client
+        return cl.soap_client.last_response
 
 
 def reader_events(tracer, tid):
@@ -679,9 +732,9 @@ def run_case(ctx, state, rname, wnames, points, opened=None):
     # references to the objects published at v0 (what a reader that already left the section still holds)
     held = [(st, canon(st.mk_state_node(bench.mdib.data_model.pm_names.State, bench.mdib.nsmapper)))
             for st in list(bench.mdib.states.objects) + list(bench.mdib.context_states.objects)]
-    writers = [lambda pause=None, w=w, j=j: WRITERS[w](bench, n0 + j, pause) for j, w in enumerate(wnames)]
+    writers = [lambda pause=None, w=w, j=j: (WRITERS.get(w) or COMPOUND[w])(bench, n0 + j, pause) for j, w in enumerate(wnames)]
     opened = list(opened or [False] * len(wnames))
-    f = Forced(bench, tracer, lambda: READERS[rname](bench), writers, points, opened).run()
+    f = Forced(bench, tracer, lambda: READERS[rname](bench), writers, points, opened, rname).run()
     evs_all = list(tracer.events)
     r_events = reader_events(tracer, f.reader_tid)
     res = {'reader': rname, 'writers': wnames, 'points': points, 'v0': v0, 'toggle_phase': phase0, 'delete_phase': dphase0, 'errors': f.errors, 'n_events': len(r_events),
@@ -790,6 +843,14 @@ def _run(ctx):
         for w in wsel:
             for p in pts:
                 cases.append((rname, [w], [p]))
+        # a commit followed by a complete second request of the same family, at every yield point (overlap inside the handler)
+        fam = rname.split('_')[0]
+        for w in COMPOUND:
+            if ctx.tier == 'thorough' or w.lower().startswith('committhen' + fam.lower()):
+                for p in pts:
+                    ev = base_events[rname][p] if p < len(base_events[rname]) else ('end', '', False)
+                    if ctx.tier == 'thorough' or ev[0] in ('before-acq', 'acq', 'rel', 'end') or not ev[2]:
+                        cases.append((rname, [w], [p]))
         if rname in TOGGLED:
             # the selection itself changes: every yield point x every phase (create / add state / remove)
             for p in pts:
@@ -812,8 +873,8 @@ def _run(ctx):
         # two transactions in one request (three threads)
         pairs = list(itertools.combinations_with_replacement(pts, 2))
         rng.shuffle(pairs)
-        for p1, p2 in pairs[:ctx.n(6, 40)]:
-            cases.append((rname, [rng.choice(writers), rng.choice(writers)], [p1, p2]))
+        for p1, p2 in pairs[:ctx.n(3, 40)]:
+            cases.append((rname, [rng.choice(writers + list(COMPOUND)), rng.choice(writers)], [p1, p2]))
     # corpus first: past failures, injection point given by the kind of the reader event ("rel" = right after the release)
     corpus = []
     cdir = core.VERIF + '/corpus/C07'
@@ -929,9 +990,9 @@ def relevant_writers(rname, rng):
     if rname.startswith('getMdDescription'):
         return ['descriptorTx', 'descriptorAddTx']
     if rname.startswith('getContextStates'):
-        return ['contextNewTx', 'contextUpdateTx', 'contextDeleteTx']
+        return ['contextNewTx', 'contextUpdateTx', 'contextDeleteTx', 'contextNestedTx']
     if rname.startswith('getMdState'):
-        return ['metricTx', rng.choice(['contextNewTx', 'descriptorTx', 'contextUpdateTx'])]
+        return ['metricTx', 'metricNestedTx', rng.choice(['contextNewTx', 'descriptorTx', 'contextUpdateTx', 'contextNestedTx'])]
     return ['metricTx', rng.choice(['descriptorTx', 'descriptorAddTx', 'contextNewTx'])]
 
 
